@@ -39,6 +39,24 @@ type ModLoc struct {
 	All string // "T::f" whole field map; "heap"
 }
 
+// CallSiteSpec replaces the contract of the k-th call of Callee by a (virtual, assumed) contract
+// specialised for that call, with arguments given as expressions over the caller's locals.
+type CallSiteSpec struct {
+	Callee string
+	K      int
+	Fn     string
+	Args   []Expr
+	Src    string
+}
+
+// PreCall: an assertion over the caller's state (parameters and locals) checked right before the
+// k-th call of Callee.
+type PreCall struct {
+	Callee string
+	K      int
+	C      Clause
+}
+
 type GhostUpdate struct {
 	// at call <callee>#k before|after: $g[...] := e
 	Target Expr
@@ -61,6 +79,10 @@ type FuncSpec struct {
 	Ensures      []Clause
 	EnsuresPanic []Clause
 	AtUnlock     []Clause // checked at every Unlock in the function
+	EnsuresLocal []Clause // checked at exits with the function's locals in scope; never assumed by callers
+	CallSites    []CallSiteSpec
+	PreCalls     []PreCall
+	Virtual      bool
 	Modifies     []ModLoc
 	HasModifies  bool
 	NoPanic      bool
@@ -112,6 +134,12 @@ type TypeInv struct {
 	Assumed bool
 }
 
+type ImmCells struct {
+	Loc     string
+	PkgPath string
+	Imports map[string]string
+}
+
 type WriteHook struct {
 	Type, Field string
 	X, Old, New string
@@ -150,6 +178,7 @@ type Spec struct {
 	LockInvs    map[string][]*LockInv // pkgpath.T.lockfield
 	Sorts       map[string]bool
 	TypeInvs    map[string]*TypeInv // pkgpath.T
+	ImmutableCells []ImmCells
 	Preds       map[string]*SpecFunc  // by simple name (and pkgname.Name)
 	Axioms      []*Axiom
 	Hooks       map[string]*WriteHook // pkgpath.T.f
@@ -183,6 +212,7 @@ var fnKeywords = map[string]bool{
 	"requires": true, "ensures": true, "ensures_on_panic": true, "modifies": true, "nopanic": true,
 	"trusted": true, "assumed": true, "loop": true, "acquires": true, "atunlock": true,
 	"assert": true, "update": true, "inline": true, "strings": true, "effectfree": true,
+	"ensures_local": true, "callsite": true, "virtual": true, "precall": true,
 }
 
 type specItem struct {
@@ -478,6 +508,10 @@ func (sp *Spec) loadSpecFile(path, prefix, pkgPath, pkgName string, assumed bool
 				sp.Guarded[pkgPath+"."+tl[0]+"."+strings.TrimSpace(f)] = tl[1]
 			}
 		case "immutable":
+			if strings.HasPrefix(strings.TrimSpace(it.text), "cells(") {
+				sp.ImmutableCells = append(sp.ImmutableCells, ImmCells{Loc: strings.TrimSpace(it.text), PkgPath: pkgPath, Imports: imports})
+				break
+			}
 			parts := strings.SplitN(it.text, ":", 2)
 			if len(parts) != 2 {
 				return fail(fmt.Errorf("immutable T: fields"))
@@ -637,7 +671,42 @@ func (sp *Spec) loadSpecFile(path, prefix, pkgPath, pkgName string, assumed bool
 				return fail(fmt.Errorf("clause %q outside a function contract", it.kw))
 			}
 			switch it.kw {
-			case "requires", "ensures", "ensures_on_panic", "atunlock":
+			case "precall":
+				m := regexp.MustCompile(`^([\w./$*()]+)#(\d+)\s+(.*)$`).FindStringSubmatch(it.text)
+				if m == nil {
+					return fail(fmt.Errorf("precall callee#k [label] expr"))
+				}
+				k, _ := strconv.Atoi(m[2])
+				c, err := parseClause(m[3], where)
+				if err != nil {
+					return err
+				}
+				if c.Label == "" {
+					c.Label = fmt.Sprintf("pc%d", it.line)
+				}
+				cur.PreCalls = append(cur.PreCalls, PreCall{Callee: m[1], K: k, C: c})
+			case "virtual":
+				cur.Virtual = true
+				cur.Trusted = true
+			case "callsite":
+				m := regexp.MustCompile(`^([\w./$*()]+)#(\d+)\s*:\s*(\w+)\((.*)\)$`).FindStringSubmatch(it.text)
+				if m == nil {
+					return fail(fmt.Errorf("callsite callee#k: vfunc(args)"))
+				}
+				k, _ := strconv.Atoi(m[2])
+				cs := CallSiteSpec{Callee: m[1], K: k, Fn: m[3], Src: it.text}
+				for _, a := range splitTop(m[4], ',') {
+					if a == "" {
+						continue
+					}
+					e, err := parseExpr(a)
+					if err != nil {
+						return fail(err)
+					}
+					cs.Args = append(cs.Args, e)
+				}
+				cur.CallSites = append(cur.CallSites, cs)
+			case "requires", "ensures", "ensures_on_panic", "atunlock", "ensures_local":
 				c, err := parseClause(it.text, where)
 				if err != nil {
 					return err
@@ -654,6 +723,8 @@ func (sp *Spec) loadSpecFile(path, prefix, pkgPath, pkgName string, assumed bool
 					cur.EnsuresPanic = append(cur.EnsuresPanic, c)
 				case "atunlock":
 					cur.AtUnlock = append(cur.AtUnlock, c)
+				case "ensures_local":
+					cur.EnsuresLocal = append(cur.EnsuresLocal, c)
 				}
 			case "modifies":
 				cur.HasModifies = true
@@ -662,6 +733,14 @@ func (sp *Spec) loadSpecFile(path, prefix, pkgPath, pkgName string, assumed bool
 				}
 				for _, loc := range splitTop(it.text, ',') {
 					if loc == "" {
+						continue
+					}
+					if strings.HasPrefix(loc, "pointee(") {
+						e, err := parseExpr(strings.TrimSuffix(strings.TrimPrefix(loc, "pointee("), ")"))
+						if err != nil {
+							return fail(err)
+						}
+						cur.Modifies = append(cur.Modifies, ModLoc{Src: loc, E: e, All: "pointee"})
 						continue
 					}
 					if loc == "heap" || strings.Contains(loc, "::") || strings.HasPrefix(loc, "cells(") {
@@ -705,7 +784,7 @@ func (sp *Spec) loadSpecFile(path, prefix, pkgPath, pkgName string, assumed bool
 							if loc == "" {
 								continue
 							}
-							if strings.HasPrefix(loc, "cells(") {
+							if strings.HasPrefix(loc, "cells(") || strings.Contains(loc, "::") {
 								ls.Modifies = append(ls.Modifies, ModLoc{Src: loc, All: loc})
 								continue
 							}
